@@ -77,4 +77,6 @@ def rule_command_line_reader_per_file(ctx):
     ctx.res.minimum("O8.4", 1)
 
 
-RULES = [rule_histories, rule_reset_complete, rule_no_shared_state, rule_command_line_reader_per_file]
+from .common import rule_module_state  # noqa: E402
+
+RULES = [rule_histories, rule_reset_complete, rule_no_shared_state, rule_command_line_reader_per_file, rule_module_state]
